@@ -103,6 +103,293 @@ theorem periodogram_parseval_twosided (hN : 0 < N) (hζ : IsPrimitiveRoot ζ N)
   rw [← Finset.sum_mul, ← Finset.sum_div, h]
   field_simp
 
+/-! ### one-sided output is the folded two-sided output -/
+
+/-- the one-sided assembly written in the source (`P[0]`, `P[1:Fl] *= 2`, `P[Fn-1]`) is the fold
+`foldOne` of `Lemmas/FoldSum.lean` on the returned bins — for every spectrum `S` -/
+theorem pgOne_eq_fold (S : ℕ → ℂ) {k : ℕ} (hk : k < N / 2 + 1) :
+    (pgOne N S k : ℝ) = foldOne N (fun k => Complex.normSq (S k)) k := by
+  unfold pgOne foldOne
+  simp only [Fl, Fn, periodogram_Fl, periodogram_Fn, sqmag_eq, ofNat_real]
+  by_cases h0 : k = 0
+  · simp [h0]
+  · by_cases h1 : k < (N + 1) / 2
+    · simp [h0, h1]
+    · have h2 : (N + 1) / 2 < N / 2 + 1 ∧ k = N / 2 + 1 - 1 := by omega
+      simp only [h0, h1, if_false]
+      rw [if_pos h2]
+
+/-- `onesided_is_fold`: the one-sided periodogram is the two-sided periodogram folded onto the
+non-negative frequencies (bin 0 once, duplicated bins doubled, Nyquist once), for every signal -/
+theorem onesided_is_fold (tw : ℕ → ℂ) (Fs : ℝ) (n : ℕ) (x : ℕ → ℂ) {k : ℕ} (hk : k < outLen N true) :
+    periodogramAt tw Fs n N true x k = foldOne N (periodogramAt tw Fs n N false x) k := by
+  have hk' : k < N / 2 + 1 := by simpa [outLen, Fn, periodogram_Fn] using hk
+  have e : periodogramAt tw Fs n N true x k = pgOne N (spec tw N n x) k / (Fs * n) := by
+    simp [periodogramAt, periodogramOf]
+  rw [e, pgOne_eq_fold _ hk']
+  unfold foldOne
+  simp only [periodogramAt, periodogramOf, Bool.false_eq_true, if_false, sqmag_eq, ofNat_real]
+  split_ifs <;> ring
+
+/-- the two-sided periodogram of a real signal is symmetric: `P(N-k) = P(k)` -/
+theorem periodogram_symm (hN : 0 < N) (hζ : IsPrimitiveRoot ζ N) (hc : (starRingEnd ℂ) ζ = ζ⁻¹)
+    (Fs : ℝ) (n : ℕ) (x : ℕ → ℂ) (hx : ∀ j, (starRingEnd ℂ) (x j) = x j) {k : ℕ} (hk : k ≤ N) :
+    periodogramAt (tw ζ) Fs n N false x (N - k) = periodogramAt (tw ζ) Fs n N false x k := by
+  have hp : ∀ j, (starRingEnd ℂ) (padded n x j) = padded n x j := by
+    intro j; rw [padded_eq]; split_ifs <;> simp [hx]
+  simp only [periodogramAt, periodogramOf, Bool.false_eq_true, if_false, sqmag_eq,
+    spec_eq hζ.pow_eq_one, normSq_D_symm hN hζ hc _ hp hk]
+
+/-- one-sided periodogram of a real signal: `Σ_{k ≤ N/2} P(k)·Fs/NFFT = mean x²`, both parities,
+any NFFT ≥ n -/
+theorem periodogram_parseval_onesided (hN : 0 < N) (hζ : IsPrimitiveRoot ζ N)
+    (hc : (starRingEnd ℂ) ζ = ζ⁻¹) {n : ℕ} (hn : 0 < n) (hnN : n ≤ N) {Fs : ℝ} (hFs : Fs ≠ 0)
+    (x : ℕ → ℂ) (hx : ∀ j, (starRingEnd ℂ) (x j) = x j) :
+    ∑ k ∈ range (outLen N true), periodogramAt (tw ζ) Fs n N true x k * (Fs / N)
+      = (∑ j ∈ range n, Complex.normSq (x j)) / n := by
+  rw [← periodogram_parseval_twosided hN hζ hc hn hnN hFs x, ← Finset.sum_mul, ← Finset.sum_mul]
+  congr 1
+  have hL : outLen N true = N / 2 + 1 := by simp [outLen, Fn, periodogram_Fn]
+  have hL2 : outLen N false = N := by simp [outLen]
+  rw [hL2, ← fold_sum_eq N hN (periodogramAt (tw ζ) Fs n N false x)
+    (fun k _ hk => periodogram_symm hN hζ hc Fs n x hx hk.le), hL]
+  refine sum_congr rfl fun k hk => ?_
+  exact onesided_is_fold _ Fs n x (by rw [hL]; exact mem_range.1 hk)
+
+/-! ### scaling and sign (periodogram) -/
+
+theorem spec_smul (tw : ℕ → ℂ) (n : ℕ) (a : ℂ) (x : ℕ → ℂ) (k : ℕ) :
+    spec tw N n (fun j => a * x j) k = a * spec tw N n x k := by
+  simp only [spec, dftAt, ksum_eq, mul_sum]
+  refine sum_congr rfl fun j _ => ?_
+  simp only [padded_eq]
+  split_ifs <;> ring
+
+/-- `scale_sq`: `x ↦ a·x` multiplies the periodogram by `|a|²` (any complex `a`, either sides) -/
+theorem periodogram_scale_sq (tw : ℕ → ℂ) (Fs : ℝ) (n : ℕ) (os : Bool) (a : ℂ) (x : ℕ → ℂ) (k : ℕ) :
+    periodogramAt tw Fs n N os (fun j => a * x j) k
+      = Complex.normSq a * periodogramAt tw Fs n N os x k := by
+  have hs : spec tw N n (fun j => a * x j) = fun k => a * spec tw N n x k :=
+    funext fun k => spec_smul tw n a x k
+  simp only [periodogramAt, periodogramOf, hs, pgOne, sqmag_eq, Complex.normSq_mul, ofNat_real]
+  split_ifs <;> ring
+
+/-- `psd_real_nonneg`: the periodogram is real by construction (its type) and non-negative -/
+theorem periodogram_nonneg (tw : ℕ → ℂ) {Fs : ℝ} (hFs : 0 < Fs) (n : ℕ) (os : Bool) (x : ℕ → ℂ) (k : ℕ) :
+    0 ≤ periodogramAt tw Fs n N os x k := by
+  simp only [periodogramAt, periodogramOf, pgOne, sqmag_eq, ofNat_real]
+  apply div_nonneg
+  · split_ifs <;> first | exact Complex.normSq_nonneg _ | positivity | simp [Complex.normSq_nonneg]
+  · positivity
+
+/-! ### multitaper -/
+
+/-- `mtm_cross_spectrum` (auto-spectrum branch) in closed form: the `Σ_t w_t²`-weighted mean of
+`|X_t(k)|²`, doubled at the duplicated bins of a one-sided spectrum -/
+theorem mtmAuto_eq (os : Bool) (T : ℕ) (w : ℕ → ℕ → ℝ) (X : ℕ → ℕ → ℂ) (k : ℕ) :
+    mtmAuto N os T w X k = dblIf (fun v => 2 * v) os N k
+      ((∑ t ∈ range T, w t k * w t k * Complex.normSq (X t k)) / ∑ t ∈ range T, w t k * w t k) := by
+  unfold mtmAuto
+  simp only [rsum_eq, ksum_eq, kscale_eq, conj_complex, re_complex, ofNat_real, Complex.re_sum]
+  congr 2
+  refine sum_congr rfl fun t _ => ?_
+  rw [Complex.mul_conj, Complex.ofReal_re, Complex.normSq_mul, Complex.normSq_ofReal]
+
+/-- the multitaper estimate is the `w²`-weighted mean of the single-taper estimates -/
+theorem multiTaperPsd_weighted (tw : ℕ → ℂ) (Fs : ℝ) (n : ℕ) (os : Bool) (T : ℕ)
+    (h w : ℕ → ℕ → ℝ) (x : ℕ → ℂ) (k : ℕ) :
+    multiTaperPsdAt tw Fs n N os T h w x k
+      = (∑ t ∈ range T, w t k * w t k * taperPsdAt tw Fs n N os h x t k)
+          / ∑ t ∈ range T, w t k * w t k := by
+  unfold multiTaperPsdAt multiTaperPsdOf taperPsdAt
+  rw [mtmAuto_eq]
+  unfold dblIf
+  simp only [sqmag_eq, ofNat_real, Nat.cast_ofNat]
+  split_ifs
+  · have : ∑ t ∈ range T, w t k * w t k * (2 * Complex.normSq (taperedSpec tw N n (h t) x k) / Fs)
+        = 2 * (∑ t ∈ range T, w t k * w t k * Complex.normSq (taperedSpec tw N n (h t) x k)) / Fs := by
+      rw [Finset.mul_sum, Finset.sum_div]; exact sum_congr rfl fun t _ => by ring
+    rw [this]; ring
+  · have : ∑ t ∈ range T, w t k * w t k * (Complex.normSq (taperedSpec tw N n (h t) x k) / Fs)
+        = (∑ t ∈ range T, w t k * w t k * Complex.normSq (taperedSpec tw N n (h t) x k)) / Fs := by
+      rw [Finset.sum_div]; exact sum_congr rfl fun t _ => by ring
+    rw [this]; ring
+
+/-- `adaptive_in_range` (lower): with ANY real weights not all zero at bin `k`, the estimate at
+`k` is at least every common lower bound of the single-taper estimates -/
+theorem adaptive_in_range_lower (tw : ℕ → ℂ) (Fs : ℝ) (n : ℕ) (os : Bool) (T : ℕ)
+    (h w : ℕ → ℕ → ℝ) (x : ℕ → ℂ) (k : ℕ) (hw : 0 < ∑ t ∈ range T, w t k * w t k)
+    (m : ℝ) (hm : ∀ t < T, m ≤ taperPsdAt tw Fs n N os h x t k) :
+    m ≤ multiTaperPsdAt tw Fs n N os T h w x k := by
+  rw [multiTaperPsd_weighted, le_div_iff₀ hw, Finset.mul_sum]
+  exact sum_le_sum fun t ht => by
+    have := hm t (mem_range.1 ht)
+    nlinarith [mul_self_nonneg (w t k)]
+
+/-- `adaptive_in_range` (upper) -/
+theorem adaptive_in_range_upper (tw : ℕ → ℂ) (Fs : ℝ) (n : ℕ) (os : Bool) (T : ℕ)
+    (h w : ℕ → ℕ → ℝ) (x : ℕ → ℂ) (k : ℕ) (hw : 0 < ∑ t ∈ range T, w t k * w t k)
+    (m : ℝ) (hm : ∀ t < T, taperPsdAt tw Fs n N os h x t k ≤ m) :
+    multiTaperPsdAt tw Fs n N os T h w x k ≤ m := by
+  rw [multiTaperPsd_weighted, div_le_iff₀ hw, Finset.mul_sum]
+  exact sum_le_sum fun t ht => by
+    have := hm t (mem_range.1 ht)
+    nlinarith [mul_self_nonneg (w t k)]
+
+/-- `psd_real_nonneg` for the multitaper estimate (any weights, `Fs > 0`) -/
+theorem multiTaperPsd_nonneg (tw : ℕ → ℂ) {Fs : ℝ} (hFs : 0 < Fs) (n : ℕ) (os : Bool) (T : ℕ)
+    (h w : ℕ → ℕ → ℝ) (x : ℕ → ℂ) (k : ℕ) : 0 ≤ multiTaperPsdAt tw Fs n N os T h w x k := by
+  rw [multiTaperPsd_weighted]
+  apply div_nonneg
+  · refine sum_nonneg fun t _ => mul_nonneg (mul_self_nonneg _) ?_
+    unfold taperPsdAt dblIf
+    simp only [sqmag_eq, ofNat_real, Nat.cast_ofNat]
+    apply div_nonneg _ hFs.le
+    split_ifs
+    · exact mul_nonneg (by norm_num) (Complex.normSq_nonneg _)
+    · exact Complex.normSq_nonneg _
+  · exact sum_nonneg fun t _ => mul_self_nonneg _
+
+/-- energy of the `t`-th tapered, de-meaned signal -/
+noncomputable def taperedEnergy (n : ℕ) (h : ℕ → ℕ → ℝ) (x : ℕ → ℂ) (t : ℕ) : ℝ :=
+  ∑ j ∈ range n, Complex.normSq ((h t j : ℂ) * demean n x j)
+
+theorem taperedSpec_energy (hN : 0 < N) (hζ : IsPrimitiveRoot ζ N) (hc : (starRingEnd ℂ) ζ = ζ⁻¹)
+    {n : ℕ} (hnN : n ≤ N) (h : ℕ → ℕ → ℝ) (x : ℕ → ℂ) (t : ℕ) :
+    ∑ k ∈ range N, Complex.normSq (taperedSpec (tw ζ) N n (h t) x k) = N * taperedEnergy n h x t := by
+  have := zero_pad_energy hN hζ hc hnN (fun j => kscale (h t j) (demean n x j))
+  unfold taperedEnergy taperedSpec
+  simpa only [sqmag_eq, kscale_eq, spec] using this
+
+/-- `multitaper_parseval` (two-sided, fixed weights `w_t`, e.g. `√λ_t`): the density integrates to
+the `w²`-weighted mean of the energies of the tapered de-meaned signals -/
+theorem multitaper_parseval_twosided (hN : 0 < N) (hζ : IsPrimitiveRoot ζ N)
+    (hc : (starRingEnd ℂ) ζ = ζ⁻¹) {n : ℕ} (hnN : n ≤ N) {Fs : ℝ} (hFs : Fs ≠ 0) (T : ℕ)
+    (h : ℕ → ℕ → ℝ) (w : ℕ → ℝ) (x : ℕ → ℂ) :
+    ∑ k ∈ range (mt_psd_last_freq N false),
+        multiTaperPsdAt (tw ζ) Fs n N false T h (fun t _ => w t) x k * (Fs / N)
+      = (∑ t ∈ range T, w t * w t * taperedEnergy n h x t) / ∑ t ∈ range T, w t * w t := by
+  have hN' : (N : ℝ) ≠ 0 := Nat.cast_ne_zero.2 hN.ne'
+  have hL : mt_psd_last_freq N false = N := by simp [mt_psd_last_freq]
+  have key : ∑ k ∈ range N, ∑ t ∈ range T,
+        w t * w t * (Complex.normSq (taperedSpec (tw ζ) N n (h t) x k) / Fs)
+      = (N / Fs) * ∑ t ∈ range T, w t * w t * taperedEnergy n h x t := by
+    rw [Finset.sum_comm, Finset.mul_sum]
+    refine sum_congr rfl fun t _ => ?_
+    rw [← Finset.mul_sum, ← Finset.sum_div, taperedSpec_energy hN hζ hc hnN]; ring
+  simp only [hL, multiTaperPsd_weighted, taperPsdAt, dblIf, Bool.false_eq_true, false_and, if_false,
+    sqmag_eq]
+  rw [← Finset.sum_mul, ← Finset.sum_div, key]
+  field_simp
+
+/-- one-sided multitaper output is the folded two-sided output (same weights), every bin -/
+theorem multitaper_onesided_is_fold (tw : ℕ → ℂ) (Fs : ℝ) (n : ℕ) (T : ℕ)
+    (h w : ℕ → ℕ → ℝ) (x : ℕ → ℂ) (k : ℕ) :
+    multiTaperPsdAt tw Fs n N true T h w x k
+      = foldOne N (multiTaperPsdAt tw Fs n N false T h w x) k := by
+  unfold foldOne
+  simp only [multiTaperPsdAt, multiTaperPsdOf, mtmAuto_eq, dblIf, mtm_Fl, Bool.false_eq_true,
+    false_and, if_false, true_and]
+  by_cases h0 : k = 0
+  · simp [h0]
+  · by_cases h1 : k < (N + 1) / 2
+    · have : 1 ≤ k ∧ k < (N + 1) / 2 := ⟨by omega, h1⟩
+      simp only [h0, h1, this, and_self, if_true, if_false]; ring
+    · simp only [h0, h1, and_false, if_false]
+
+theorem demean_real {n : ℕ} (x : ℕ → ℂ) (hx : ∀ j, (starRingEnd ℂ) (x j) = x j) (j : ℕ) :
+    (starRingEnd ℂ) (demean n x j) = demean n x j := by
+  rw [demean_eq, kmean_eq, map_sub, map_mul, Complex.conj_ofReal, map_sum, hx]
+  congr 2
+  exact sum_congr rfl fun i _ => hx i
+
+/-- the two-sided fixed-weight multitaper estimate of a real signal is symmetric -/
+theorem multitaper_symm (hN : 0 < N) (hζ : IsPrimitiveRoot ζ N) (hc : (starRingEnd ℂ) ζ = ζ⁻¹)
+    (Fs : ℝ) (n T : ℕ) (h : ℕ → ℕ → ℝ) (w : ℕ → ℝ) (x : ℕ → ℂ)
+    (hx : ∀ j, (starRingEnd ℂ) (x j) = x j) {k : ℕ} (hk : k ≤ N) :
+    multiTaperPsdAt (tw ζ) Fs n N false T h (fun t _ => w t) x (N - k)
+      = multiTaperPsdAt (tw ζ) Fs n N false T h (fun t _ => w t) x k := by
+  have hp : ∀ t j, (starRingEnd ℂ) (padded n (fun j => kscale (h t j) (demean n x j)) j)
+      = padded n (fun j => kscale (h t j) (demean n x j)) j := by
+    intro t j; rw [padded_eq]
+    split_ifs
+    · rw [kscale_eq, map_mul, Complex.conj_ofReal, demean_real x hx]
+    · simp
+  have hY : ∀ t, Complex.normSq (taperedSpec (tw ζ) N n (h t) x (N - k))
+      = Complex.normSq (taperedSpec (tw ζ) N n (h t) x k) := by
+    intro t
+    have := normSq_D_symm hN hζ hc _ (hp t) hk
+    simpa only [taperedSpec, dftAt_tw hζ.pow_eq_one] using this
+  simp only [multiTaperPsd_weighted, taperPsdAt, dblIf, Bool.false_eq_true, false_and, if_false,
+    sqmag_eq, hY]
+
+/-- `multitaper_parseval` (one-sided, real signal, fixed weights), both parities of NFFT -/
+theorem multitaper_parseval_onesided (hN : 0 < N) (hζ : IsPrimitiveRoot ζ N)
+    (hc : (starRingEnd ℂ) ζ = ζ⁻¹) {n : ℕ} (hnN : n ≤ N) {Fs : ℝ} (hFs : Fs ≠ 0) (T : ℕ)
+    (h : ℕ → ℕ → ℝ) (w : ℕ → ℝ) (x : ℕ → ℂ) (hx : ∀ j, (starRingEnd ℂ) (x j) = x j) :
+    ∑ k ∈ range (mt_psd_last_freq N true),
+        multiTaperPsdAt (tw ζ) Fs n N true T h (fun t _ => w t) x k * (Fs / N)
+      = (∑ t ∈ range T, w t * w t * taperedEnergy n h x t) / ∑ t ∈ range T, w t * w t := by
+  rw [← multitaper_parseval_twosided hN hζ hc hnN hFs T h w x, ← Finset.sum_mul, ← Finset.sum_mul]
+  congr 1
+  have hL : mt_psd_last_freq N true = N / 2 + 1 := by simp [mt_psd_last_freq]
+  have hL2 : mt_psd_last_freq N false = N := by simp [mt_psd_last_freq]
+  rw [hL, hL2, ← fold_sum_eq N hN _ (fun k _ hk => multitaper_symm hN hζ hc Fs n T h w x hx hk.le)]
+  exact sum_congr rfl fun k _ => multitaper_onesided_is_fold _ Fs n T h _ x k
+
+/-- `scale_sq` for the multitaper estimate (same weights): `x ↦ a·x` multiplies it by `|a|²` -/
+theorem multitaper_scale_sq (tw : ℕ → ℂ) (Fs : ℝ) (n : ℕ) (os : Bool) (T : ℕ)
+    (h w : ℕ → ℕ → ℝ) (a : ℂ) (x : ℕ → ℂ) (k : ℕ) :
+    multiTaperPsdAt tw Fs n N os T h w (fun j => a * x j) k
+      = Complex.normSq a * multiTaperPsdAt tw Fs n N os T h w x k := by
+  have hd : ∀ j, demean n (fun j => a * x j) j = a * demean n x j := by
+    intro j; simp only [demean_eq, kmean_eq, ← Finset.mul_sum]; ring
+  have hs : ∀ t k, taperedSpec tw N n (h t) (fun j => a * x j) k = a * taperedSpec tw N n (h t) x k := by
+    intro t k
+    have e : (fun j => kscale (h t j) (demean n (fun j => a * x j) j))
+        = fun j => a * kscale (h t j) (demean n x j) := by
+      funext j; rw [hd, kscale_eq, kscale_eq]; ring
+    unfold taperedSpec
+    rw [e]
+    exact spec_smul tw n a _ k
+  simp only [multiTaperPsd_weighted, taperPsdAt, hs, sqmag_eq, Complex.normSq_mul, dblIf]
+  rw [← mul_div_assoc, Finset.mul_sum]
+  congr 1
+  refine sum_congr rfl fun t _ => ?_
+  split_ifs <;> ring
+
+/-! ### non-vacuity: admissible twiddles exist for every `N`, and the statements have content -/
+
+/-- a primitive `N`-th root of unity lies on the unit circle: `conj ζ = ζ⁻¹` -/
+theorem twiddle_conj (hN : 0 < N) (hζ : IsPrimitiveRoot ζ N) : (starRingEnd ℂ) ζ = ζ⁻¹ :=
+  (Complex.inv_eq_conj (Complex.norm_eq_one_of_pow_eq_one hζ.pow_eq_one hN.ne')).symm
+
+/-- `e^{2πi/N}` (and hence its conjugate, the numpy twiddle) is admissible -/
+theorem exists_twiddle (hN : 0 < N) : ∃ ζ : ℂ, IsPrimitiveRoot ζ N ∧ (starRingEnd ℂ) ζ = ζ⁻¹ :=
+  ⟨_, Complex.isPrimitiveRoot_exp N hN.ne', twiddle_conj hN (Complex.isPrimitiveRoot_exp N hN.ne')⟩
+
+/-- instance of `periodogram_parseval_onesided` with odd `NFFT = 5 > n = 3`, a non-zero signal -/
+example : ∃ ζ : ℂ, ∑ k ∈ range (outLen 5 true),
+      periodogramAt (tw ζ) 10 3 5 true (fun j => ((j : ℝ) + 1 : ℝ)) k * (10 / (5 : ℕ))
+    = (∑ j ∈ range 3, Complex.normSq (((j : ℝ) + 1 : ℝ) : ℂ)) / (3 : ℕ)
+    ∧ (∑ j ∈ range 3, Complex.normSq (((j : ℝ) + 1 : ℝ) : ℂ)) / (3 : ℕ) ≠ 0 := by
+  obtain ⟨ζ, hζ, hc⟩ := exists_twiddle (N := 5) (by norm_num)
+  refine ⟨ζ, periodogram_parseval_onesided (by norm_num) hζ hc (by norm_num) (by norm_num)
+    (by norm_num) _ (fun j => Complex.conj_ofReal _), ?_⟩
+  simp [Finset.sum_range_succ, Complex.normSq_ofReal]
+  norm_num
+
+/-- `adaptive_in_range` has satisfiable hypotheses: two tapers, unequal weights -/
+example (tw : ℕ → ℂ) (x : ℕ → ℂ) :
+    min (taperPsdAt tw 1 4 4 false (fun _ _ => 1) x 0 1) (taperPsdAt tw 1 4 4 false (fun _ _ => 1) x 1 1)
+      ≤ multiTaperPsdAt tw 1 4 4 false 2 (fun _ _ => 1) (fun t _ => (t : ℝ) + 1) x 1 := by
+  apply adaptive_in_range_lower
+  · simp [Finset.sum_range_succ]; norm_num
+  · intro t ht
+    interval_cases t
+    · exact min_le_left _ _
+    · exact min_le_right _ _
+
 end math
 
 end Nitime.C04.Props
